@@ -39,6 +39,8 @@ def run(ctx):
     ctx.add("traces_validated_against_impl", res["cases"])
     for s in res.get("samples", []):
         ctx.sample(s)
+    if ctx.tier == "thorough":
+        vlib.vacuity_check(ctx, "MC_Resolver.tla", "MC_Resolver_c01_quick_a.cfg", expect_zero=())
     return vlib.finish(
         ctx, "model_checking",
         rule="TLC enumerates every book over the configured recipes/leaves/ingredient bound and every visiting order; "
